@@ -409,6 +409,8 @@ class AchievableTieStream(Stream):
                         lic = []
                     if i % 13 == 0:
                         cpr = []
+                    # a request is a set: no entry twice
+                    cpr, lic, con = list(dict.fromkeys(cpr)), list(dict.fromkeys(lic)), list(dict.fromkeys(con))
                     yield {"s": st.__name__, "f": "0" + force + "000", "cpr": cpr, "lic": lic, "con": con}
 
     def impl(self, case):
